@@ -45,7 +45,10 @@ def info(prop):
                          "vf/pool.py, vf/runner.py"],
         "assumptions": ["a trailing comment on a section header line ('[ moleculetype ] ; text', once in vitamin_E_CG.itp) is not a comment *line* of the statement and is not compared",
                         "blank lines carry no information: they are not compared; a comment line with empty text (';') counts as blank",
-                        "comment text is compared modulo surrounding blanks; content token by token",
+                        "comment and preprocessor text is compared modulo white space (no layout is fixed by the statement); content token by token",
+                        "a mismatch on an isolated ItpLine is a violation only when the round trip of a file containing that line (followed by another line, and as last line) violates the file contract; otherwise it is reported as undecided (informational)",
+                        "lines with blanks before '#' are evaluated but never refuted (the statement does not fix their kind); harness observation problems (renamed public attribute, no 'header' entry) are undecided",
+                        "read_topology results are compared with bonds as a multiset of unordered pairs",
                         "'#' starts a preprocessor line only in column 0 (the reading the library itself documents)"],
         "explanation": ("Bounded run-time contract checks (no deductive obligation: regular expressions and split/join chains). "
                         "Line level: every string over {'a',' ',';','#'} with an optional final newline up to length 6 (quick) / 7 (thorough; "
